@@ -45,9 +45,10 @@ def records(ctx, only_class=None):
     rng = ctx.rng
     thorough = ctx.tier == "thorough"
     limit = 40 if thorough else 6
+    nmut = 6 if thorough else 2          # instances observed after a mutation sequence, per class
     recs = []
     stats = {"classes": 0, "classes_skipped_operand_kind": 0, "classes_without_instance": 0,
-             "tuples_rejected_by_the_class_itself": 0, "per_arch": {}}
+             "tuples_rejected_by_the_class_itself": 0, "instances_after_mutation_sequence": 0, "per_arch": {}}
     skipped_names = []
     for arch_name in G.ARCHES:
         if only_class and only_class[0] != arch_name:
@@ -58,7 +59,8 @@ def records(ctx, only_class=None):
         except Exception as e:  # a changed tree
             ctx.violation("C09:%s:<isa>:rejected" % arch_name, "the instruction set could not be enumerated: %s" % type(e).__name__)
             continue
-        pools = G.Pools(rng)
+        pools = G.Pools(rng, labels=G.keyword_labels(arch, thorough), regnames=G.register_names(arch))
+        stats.setdefault("keyword_labels", {})[arch_name] = pools.labels[1:]
         n_arch = 0
         names = {}
         # input feature (not a verdict): the class's syntax skeleton (literal elements and operand
@@ -75,10 +77,11 @@ def records(ctx, only_class=None):
             shared = skel_count[G.skeleton(cls)] > 1
             if only_class and only_class[1] != cname:
                 # keep the random stream aligned with the full run
-                G.instances(cls, pools, rng, limit, getattr(arch, 'asm_printer', None))
+                G.instances(cls, pools, rng, limit, getattr(arch, 'asm_printer', None), shared)
+                G.mutated_instances(cls, pools, rng, nmut, getattr(arch, 'asm_printer', None))
                 continue
             stats["classes"] += 1
-            inst, rejected = G.instances(cls, pools, rng, limit, getattr(arch, 'asm_printer', None))
+            inst, rejected = G.instances(cls, pools, rng, limit, getattr(arch, 'asm_printer', None), shared)
             stats["tuples_rejected_by_the_class_itself"] += rejected
             if inst is None:
                 stats["classes_skipped_operand_kind"] += 1
@@ -88,10 +91,15 @@ def records(ctx, only_class=None):
             if not inst:
                 stats["classes_without_instance"] += 1
                 continue
+            mut = G.mutated_instances(cls, pools, rng, nmut, getattr(arch, 'asm_printer', None))
+            stats["instances_after_mutation_sequence"] += len(mut)
+            inst += mut
             outs = G.assemble_class(inst, arch)
-            for (text, data, rels), out in zip(inst, outs):
-                recs.append({"key": "C09:%s:%s%s" % (arch_name, cname, ":shared-syntax" if shared else ""), "text": text,
-                             "direct": {"bytes": data, "relocs": rels}, "asm": out})
+            for o, out in zip(inst, outs):
+                recs.append({"key": "C09:%s:%s%s%s" % (arch_name, cname, ":shared-syntax" if shared else "",
+                                                      ":ambiguous-operand" if o["amb"] else ""),
+                             "text": o["text"], "how": o["how"],
+                             "direct": {"bytes": o["bytes"], "relocs": o["relocs"]}, "asm": out})
                 n_arch += 1
         stats["per_arch"][arch_name] = {"classes": len(classes), "instances": n_arch}
     stats["classes_skipped_examples"] = skipped_names
@@ -107,7 +115,11 @@ class Engine:
                  "riscv:rvc, msp430, avr, m68k, mips, or1k, xtensa, microblaze, stm8, mcs6500), instantiated by "
                  "reflection: a base operand tuple, then each operand varied alone through its pool (every register "
                  "of the operand's class, boundary / random integers, a label, nested constructors), then random "
-                 "tuples; up to 6 (40 thorough) instances per class.  For each instance: text = str(i), "
+                 "tuples; up to 6 (40 thorough) instances per class; label operands are 'lab1' and names spelled like "
+                 "keywords of the same ISA's assembler (numbered registers, register aliases with underscores, "
+                 "mnemonics); for classes with nested operand constructors 2 (6) more instances are observed AFTER a "
+                 "mutation sequence on the live object (print, encode, change one nested operand through its setter "
+                 "or replace_register, then print / encode again).  For each instance: text = str(i), "
                  "Encode(i), Relocs(i) recorded directly and the section bytes / relocation list of "
                  "ppci.api.asm(text); TLC judges Law(r) of tla/Codec.tla, one instance per state.  "
                  "distinct = distinct (arch, printed text)")
@@ -120,8 +132,9 @@ class Engine:
         only = None
         if ctx.only is not None:
             stem = ctx.only["key"][len("C09:"):].rsplit(":", 1)[0]
-            if stem.endswith(":shared-syntax"):
-                stem = stem[:-len(":shared-syntax")]
+            for tag in (":ambiguous-operand", ":shared-syntax"):
+                if stem.endswith(tag):
+                    stem = stem[:-len(tag)]
             only = tuple(stem.rsplit(":", 1))
         if ctx.only is None and thorough:
             res = ctx.tlc("Codec_MC", MC_CFG % 3, label="laws of SameBag / Failing", workers=4, coverage=False)
@@ -159,8 +172,8 @@ class Engine:
                     first[k] = (idx, r, c)
         for k in sorted(first):
             idx, r, c = first[k]
-            what = "%s: e.g. '%s' (direct %s %s; assembler %s) [%d instance(s) of the class]" % (
-                WHAT[c], r["text"], bytes(r["direct"]["bytes"]).hex(), r["direct"]["relocs"],
+            what = "%s: e.g. '%s'%s (direct %s %s; assembler %s) [%d instance(s) of the class]" % (
+                WHAT[c], r["text"], (" [object state: %s]" % r["how"]) if r.get("how") else "", bytes(r["direct"]["bytes"]).hex(), r["direct"]["relocs"],
                 ("%s %s" % (bytes(b & 255 for b in r["asm"]["bytes"]).hex(), r["asm"]["relocs"])) if r["asm"]["ok"]
                 else r["asm"]["exc"], len(count[k]))
             ctx.violation(k, what, {"key": k, "text": r["text"], "direct": r["direct"], "asm": r["asm"],
